@@ -6,7 +6,13 @@ import traceback
 from . import common as C
 
 
+def _term(*_a):
+    raise SystemExit(2)
+
+
 def main(argv):
+    import signal
+    signal.signal(signal.SIGTERM, _term)
     if not argv:
         print("usage: check <Cxx> quick|thorough [--replay file]", file=sys.stderr)
         return 2
